@@ -138,7 +138,10 @@ Definition hist_spec_ok (h : hcase) : bool :=
   negb (h_err h) &&
   forallb (fun ev => match ev with
                      | HQuery q => or_present (hq_cached q) &&
-                                   (hq_weighted q || resp_equiv (hq_cached q) (hq_plain q))
+                                   (hq_weighted q || resp_equiv (hq_cached q) (hq_plain q)) &&
+                                   (* a response that contains a weighted draw (anywhere: answer or the address of
+                                      any NS / MX target) is never served from the cache unless WRSTimeout > 0 *)
+                                   negb (hq_weighted q && hq_hit q && (h_wrs h =? 0))
                      | HReload a b => Bool.eqb a b
                      | HEnv => true
                      end) (h_events h).
